@@ -480,6 +480,32 @@ func (c *Ctx) classifyNormalizeReturn(v ssa.Value, depth int) []string {
 	}
 	for _, og := range origins(v) {
 		switch x := og.(type) {
+		case *ssa.Parameter:
+			// the input itself: a pass-through when it happens under a successful type assertion on it
+			fn := x.Parent()
+			okEdges := guardEdges(fn, func(cond ssa.Value, branch bool) bool {
+				ex, isEx := cond.(*ssa.Extract)
+				if !isEx || ex.Index != 1 || !branch {
+					return false
+				}
+				ta, isTA := ex.Tuple.(*ssa.TypeAssert)
+				return isTA && ta.CommaOk && ta.X == ssa.Value(x)
+			})
+			guarded := false
+			if in, isInstr := v.(ssa.Instruction); isInstr {
+				guarded = guardedBy(fn, in.Block(), okEdges)
+			}
+			for _, ret := range returnsOf(fn) {
+				if rv, ok := returnedValue(ret, 0); ok && (rv == v || sameOrigin(rv, v)) && guardedBy(fn, ret.Block(), okEdges) {
+					guarded = true
+				}
+			}
+			if guarded {
+				out = append(out, "passthrough:input matching a type assertion")
+			} else {
+				out = append(out, "bad:"+typeString(x.Type())+" (the input, returned unconverted)")
+			}
+			continue
 		case *ssa.Const:
 			if isNilConst(x) {
 				out = append(out, "nil")
@@ -1028,5 +1054,87 @@ func ruleADP2(c *Ctx) []Ob {
 		}
 	}
 	// method-set parity of the adapters is enforced by the type checker (both implement store.Store/Tx/Cursor)
+	return o.list
+}
+
+// ---------------------------------------------------------------- CMP6
+
+// CMP6: struct normalisation flattens every embedded (anonymous) field whose
+// normalised value is an object: the plain `m[name] = value` store is reached
+// only for non-anonymous fields or for anonymous fields that did not normalise
+// to a map. Any further condition (kind of the field, pointer-ness) makes
+// embedded pointers / embedded values behave differently.
+func ruleCMP6(c *Ctx) []Ob {
+	o := newObs(c, "CMP6")
+	found := false
+	for _, fn := range c.LibFuncs {
+		if c.pkgRel(fn) != "internal" {
+			continue
+		}
+		// the struct normaliser: loads reflect.StructField.Anonymous
+		isAnon := func(v ssa.Value) bool {
+			for _, og := range origins(v) {
+				if _, f, n := fieldLoad(og); f == "Anonymous" && n != nil && n.Obj().Pkg() != nil && n.Obj().Pkg().Path() == "reflect" {
+					return true
+				}
+			}
+			return false
+		}
+		uses := false
+		ifEdges(fn, func(cond ssa.Value, e edge) {
+			if isAnon(cond) {
+				uses = true
+			}
+		})
+		if !uses {
+			continue
+		}
+		found = true
+		mapT := types.NewMap(types.Typ[types.String], types.NewInterfaceType(nil, nil))
+		allowed := guardEdges(fn, func(cond ssa.Value, branch bool) bool {
+			if isAnon(cond) {
+				return !branch
+			}
+			if u, ok := cond.(*ssa.UnOp); ok && u.Op == token.NOT && isAnon(u.X) {
+				return branch
+			}
+			if ex, ok := cond.(*ssa.Extract); ok && ex.Index == 1 {
+				if ta, ok := ex.Tuple.(*ssa.TypeAssert); ok && ta.CommaOk && types.Identical(ta.AssertedType, mapT) {
+					return !branch
+				}
+			}
+			return false
+		})
+		for _, b := range fn.Blocks {
+			for _, in := range b.Instrs {
+				mu, ok := in.(*ssa.MapUpdate)
+				if !ok {
+					continue
+				}
+				// keys coming from ranging over the embedded object's map are the flattening itself
+				fromRange := false
+				for _, og := range origins(mu.Key) {
+					if ex, ok := og.(*ssa.Extract); ok {
+						if _, isNext := ex.Tuple.(*ssa.Next); isNext {
+							fromRange = true
+						}
+					}
+				}
+				key := c.fname(fn) + "/store under the field's own name"
+				if fromRange {
+					o.add(OK, c.fname(fn)+"/flattening store", relPath(c, mu.Pos()), "keys of the embedded object are merged into the parent")
+					continue
+				}
+				if guardedBy(fn, b, allowed) {
+					o.add(OK, key, relPath(c, mu.Pos()), "reached only for a non-embedded field, or an embedded field that is not an object")
+				} else {
+					o.add(VIOLATED, key, relPath(c, mu.Pos()), "a field can be stored under its own name although it is embedded and normalises to an object (the path is not decided by Anonymous and map-ness alone): embedded structs reached through a pointer / of some kinds are no longer flattened, and Unmarshal (encoding/json flattens them) no longer round-trips")
+				}
+			}
+		}
+	}
+	if !found {
+		o.add(UNDECIDED, "struct-normaliser", "-", "no function of package internal branches on reflect.StructField.Anonymous")
+	}
 	return o.list
 }
